@@ -1,11 +1,16 @@
 import AdaptiveProofs.Lemmas.IntegNoDup
 import AdaptiveProofs.Lemmas.IntegCut
 import AdaptiveProofs.Lemmas.IntegSafe
+import AdaptiveProofs.Lemmas.IntegPath
+import AdaptiveProofs.Lemmas.IntegNoFuel
+import AdaptiveProofs.Lemmas.IntegNested
 
 /-!
 # C07 — IntegratorLearner survives any evaluation order and always covers the interval
 
-Property theorems only (helper lemmas: `Lemmas/IntegDefs.lean`, `IntegNoDup.lean`, `IntegCut.lean`, `IntegSafe.lean`).
+Property theorems only (helper lemmas: `Lemmas/IntegDefs.lean`, `IntegNoDup.lean`, `IntegCut.lean`, `IntegSafe.lean`; for the
+cut / contiguity / fuel / node-table theorems: `IntegFrame`, `IntegThread`, `IntegWF`, `IntegView`, `IntegInv`, `IntegInvB`,
+`IntegWalk`, `IntegCutFull`, `IntegFuel`, `IntegReach`, `IntegPath`, `IntegNoFuel`, `IntegNested`).
 The model `AdaptiveModel/Integ.lean` is the bookkeeping of `integrator_learner.py` as it is after the repairs
 ec93fb4 / 367d180 / b8586d8.  All theorems quantify over
   * every number type `α` (no arithmetic law is used: the choices the code makes by comparing errors are arbitrary),
@@ -77,23 +82,124 @@ theorem integ_estimate_is_sum (P : Params α) (s : St α) (l : List Nat) :
     errOf P s l = if l.isEmpty then P.inf else l.foldl (fun acc i => acc + (getI s.F i).err) 0 :=
   ⟨rfl, rfl⟩
 
-/-- C07.c (full statement, NOT proved): in every reachable state every interval's non-empty `done_leaves` is a cut
-of that interval's subtree — every path from the interval down to a childless interval meets it exactly once; for
-`first_ival` this is the set `approximating_intervals`. -/
+/-- C07.d2  `integ_no_internal_error` WITHOUT hypothesis for the real abscissae: when the abscissae of an interval are
+`(a + b) / 2 + (b - a) * xi[depth] / 2` with the Clenshaw–Curtis node tables `xi` of `integrator_coeffs`
+(`AdaptiveModel/Gen/IntegTables.lean`: the bit patterns of the doubles, dumped from the live module; `dec` is any way of
+reading a bit pattern as a number, e.g. `Float.ofBits`), `Nested` holds — node `k` of rule `d` is node `2 k` of rule `d + 1`,
+checked on the concrete tables by kernel evaluation — and no operation of any history raises an internal error, whatever
+`complete_process` computes. -/
+theorem integ_no_internal_error_tables (dec : Nat → α) (cp : Nat → Nat → CPOut α) (P : Params α) (a b errMax : α)
+    (ops : List (Op α)) :
+    Nested (tableOracle dec cp) ∧ (init (tableOracle dec cp) P a b errMax).2 = none ∧
+    ∀ r ∈ trace (tableOracle dec cp) P (start (tableOracle dec cp) P a b errMax) ops, ∀ w, r ≠ some (Err.internal w) :=
+  ⟨nested_tables dec cp, integ_no_internal_error _ P (nested_tables dec cp) a b errMax ops⟩
+
+/-- C07.d3  The facts about the concrete node tables behind it: rule `d` has `ns d` nodes; node `k` of rule `d` is node
+`2 k` of rule `d + 1` bit for bit (`d = 0, 1, 2`); the bit patterns denote the dyadic rationals `xiNum / 2^60` of the second
+dump; these are antisymmetric and strictly increasing. -/
+theorem integ_node_tables :
+    (∀ d, (Gen.IntegTables.xiBits d).length = ns d) ∧
+    (∀ d, d < 3 → ∀ k, k < ns d → (Gen.IntegTables.xiBits d)[k]? = (Gen.IntegTables.xiBits (d + 1))[2 * k]?) ∧
+    (∀ d, d ≤ 3 → (Gen.IntegTables.xiBits d).map decode60 = (Gen.IntegTables.xiNum d).map some) ∧
+    (∀ d, d ≤ 3 → (Gen.IntegTables.xiNum d).reverse = (Gen.IntegTables.xiNum d).map (fun v => -v)) ∧
+    (∀ d, d ≤ 3 → ∀ k, k < ns d - 1 →
+      (Gen.IntegTables.xiNum d).getD k 0 < (Gen.IntegTables.xiNum d).getD (k + 1) 0) :=
+  ⟨xi_length, xi_nested_idx, xi_bits_num, xi_antisymm, xi_increasing⟩
+
+/-- C07.c (full statement, proved below as `integ_cut_partition`): in every reachable state every interval's non-empty
+`done_leaves` is a cut of that interval's subtree — every path from the interval down to a childless interval meets it
+exactly once; for `first_ival` this is the set `approximating_intervals`. -/
 def integ_cut_partition_statement : Prop :=
   ∀ (O : Oracle α) (P : Params α) (a b errMax : α) (ops : List (Op α)) (i : Nat) (S : List Nat),
     let F := (run O P (start O P a b errMax) ops).F
     i < F.length → (getI F i).doneLeaves = some S → S ≠ [] → IsCut F i S
 
-/-- C07.c (proved part): the decidable check `cutOK` of the model is sound for the cut property.
-MISSING: that `cutOK` holds in every reachable state (an invariant of the `while ival is not None` walk of
-`complete_process`, including intervals that are handed to their parent, later revived by their own children and
-handed up again).  It is not proved; it is *evaluated*: the driver computes `cutOK` on states reached in every
-history of the correspondence run (op `cutcheck`), and the python oracle checks contiguity of the real
-`approximating_intervals` after every operation. -/
+/-- C07.c (the part proved first): the decidable check `cutOK` of the model is sound for the cut property.  (That `cutOK`
+holds in every reachable state is `integ_cutOK_reachable`; the driver still evaluates it on reached states, op `cutcheck`.) -/
 theorem integ_cut_partition_partial (F : Forest α) (h : cutOK F = true) (i : Nat) (hi : i < F.length) (S : List Nat)
     (hS : (getI F i).doneLeaves = some S) (hne : S ≠ []) : IsCut F i S :=
   cutOK_sound h i hi S hS hne
+
+/-- C07.c  The decidable cut check holds in EVERY reachable state: for all oracles, parameters and histories of
+tell / ask / re-ordering.  Behind it: the done-leaves invariant `Cut.RF` (next theorem). -/
+theorem integ_cutOK_reachable (O : Oracle α) (P : Params α) (a b errMax : α) (ops : List (Op α)) :
+    cutOK (run O P (start O P a b errMax) ops).F = true :=
+  Cut.cutOK_reach O P a b errMax ops
+
+/-- C07.c  The invariant of `complete_process`'s done-leaves propagation, of `split`, `refine` and `remove`, in every
+reachable state: the forest is well formed (`Cut.WF`: children have larger numbers than and point back to their parent,
+an interval is among its parent's children, no child is listed twice, children of `[a, b]` are `[a, m]`, `[m, b]`), and
+(`Cut.RZ … none`) for every interval `j`: a non-empty `done_leaves` is duplicate free and consists exactly of what `j`
+holds (`Cut.hz`: `j` itself unless all its children have `done_leaves = None`, then what the children hold); either all
+children of `j` have `done_leaves = None` or none has; if all have, `done_leaves` of `j` is not empty; an interval with
+`done_leaves = None` has a parent. -/
+theorem integ_done_leaves_invariant (O : Oracle α) (P : Params α) (a b errMax : α) (ops : List (Op α)) :
+    Cut.WF (run O P (start O P a b errMax) ops).F ∧ Cut.RZ (Cut.view (run O P (start O P a b errMax) ops).F) none :=
+  Cut.rf_reach O P a b errMax ops
+
+/-- C07.c  FULL: every interval's non-empty `done_leaves` is a cut of its subtree, in every reachable state. -/
+theorem integ_cut_partition : integ_cut_partition_statement (α := α) := by
+  intro O P a b errMax ops i S F hi hS hne
+  exact cutOK_sound (Cut.cutOK_reach O P a b errMax ops) i hi S hS hne
+
+/-- C07.c  Path formulation: in every reachable state, every way down from an interval `i` with a non-empty `done_leaves`
+`S` — child by child, to a childless interval — meets `S` exactly once. -/
+theorem integ_cut_paths (O : Oracle α) (P : Params α) (a b errMax : α) (ops : List (Op α)) (i : Nat) (S : List Nat)
+    (hi : i < (run O P (start O P a b errMax) ops).F.length)
+    (hS : (getI (run O P (start O P a b errMax) ops).F i).doneLeaves = some S) (hne : S ≠ [])
+    (p : List Nat) (hp : Cut.DownPath (run O P (start O P a b errMax) ops).F i p) :
+    p.countP (fun x => decide (x ∈ S)) = 1 :=
+  Cut.isCut_path (Cut.wf_reach O P a b errMax ops) (integ_cut_partition O P a b errMax ops i S hi hS hne) p hp
+
+/-- C07.c'  Contiguity.  The model keeps the end points as opaque keys (no order, no arithmetic); the adjacency relation
+is the one `split` creates: the children of `[a, b]` are `[a, m]` and `[m, b]`, `refine` keeps `[a, b]` (`Cut.GeoAt`, part of
+`Cut.WF`).  Stated without an order: the intervals of a non-empty `done_leaves` of `i` can be listed so that the first begins
+at `i.a`, each ends where the next begins, and the last ends at `i.b` (`Cut.chain`).  (Over an ordered field with `a < m < b`
+at every split this list is the one sorted by `a`.) -/
+theorem integ_cut_contiguous (O : Oracle α) (P : Params α) (a b errMax : α) (ops : List (Op α)) (i : Nat) (S : List Nat)
+    (hi : i < (run O P (start O P a b errMax) ops).F.length)
+    (hS : (getI (run O P (start O P a b errMax) ops).F i).doneLeaves = some S) (hne : S ≠ []) :
+    ∃ L : List Nat, L.Perm S ∧ L ≠ [] ∧
+      Cut.chain (run O P (start O P a b errMax) ops).F (getI (run O P (start O P a b errMax) ops).F i).a L
+        (getI (run O P (start O P a b errMax) ops).F i).b :=
+  Cut.isCut_contig (Cut.wf_reach O P a b errMax ops) (integ_cut_partition O P a b errMax ops i S hi hS hne)
+
+/-- C07.c''  The approximating intervals cover the domain: whenever `approximating_intervals` is a non-empty set `S`, its
+intervals can be listed so that they lead, each ending where the next begins, from `a` to `b` — the bounds the learner was
+created with. -/
+theorem integ_approximating_spans (O : Oracle α) (P : Params α) (a b errMax : α) (ops : List (Op α)) (S : List Nat)
+    (hS : approximating (run O P (start O P a b errMax) ops) = some S) (hne : S ≠ []) :
+    ∃ L : List Nat, L.Perm S ∧ L ≠ [] ∧ Cut.chain (run O P (start O P a b errMax) ops).F a L b := by
+  have hr := Cut.rootAB_reach O P a b errMax ops
+  have := integ_cut_contiguous O P a b errMax ops 0 S (by have := hr.1; omega) hS hne
+  rw [hr.2.1, hr.2.2] at this
+  exact this
+
+/-- C07.f  The fuel of the model's tree recursions is no semantic restriction.  The model calls `update_heuristic_err`
+(`updHeur`), `update_ndiv_recursively` (`updNdivRec`), `_propagate_removed_down` (`removeDown`) and the `while ival is not
+None` walk (`walkUp`) with fuel `F.length`.  On the forest of every reachable state (and on every forest that is well
+formed, `Cut.fuel_irrelevant`; every forest the operations pass through is, because well-formedness only depends on
+`a b parent children`, which only `split` changes) each of them returns the same with ANY larger fuel, and
+`updNdivRec` never reports `Err.fuel`: children have larger numbers than their parent, so `F.length - j` bounds the depth
+below `j`, and parents have smaller numbers, so `p + 1` rounds suffice from `p` upwards. -/
+theorem integ_fuel_never_exhausted (O : Oracle α) (P : Params α) (a b errMax : α) (ops : List (Op α)) (fuel : Nat)
+    (hf : (run O P (start O P a b errMax) ops).F.length ≤ fuel) :
+    let F := (run O P (start O P a b errMax) ops).F
+    (∀ j v, updHeur fuel F j v = updHeur F.length F j v) ∧
+    (∀ j, updNdivRec P fuel F j = updNdivRec P F.length F j ∧ (updNdivRec P F.length F j).2 ≠ some Err.fuel) ∧
+    (∀ j, removeDown fuel F j = removeDown F.length F j) ∧
+    (∀ p old, p < F.length → walkUp fuel F (some p) old = walkUp F.length F (some p) old) ∧
+    (∀ old, walkUp fuel F none old = walkUp F.length F none old) :=
+  Cut.fuel_irrelevant (Cut.wf_reach O P a b errMax ops) (Cut.rootAB_reach O P a b errMax ops).1 P fuel hf
+
+/-- C07.f'  End-to-end form: in every reachable state, `tell` of any abscissa and `_fill_stack` never end with the model
+artefact `Err.fuel` (so the only `Err.fuel` an operation can return is the explicit budget of `ask`'s `while n_left > 0` loop,
+which stands for an `ask` that does not return). -/
+theorem integ_no_fuel_error (O : Oracle α) (P : Params α) (a b errMax : α) (ops : List (Op α)) :
+    (∀ x, (tell O P (run O P (start O P a b errMax) ops) x).2 ≠ some Err.fuel) ∧
+    (fillStack O P (run O P (start O P a b errMax) ops)).2 ≠ some Err.fuel :=
+  ⟨fun x => Cut.tell_nf O P _ x (Cut.rw_reach O P a b errMax ops),
+   Cut.fillStack_nf O P _ (Cut.rw_reach O P a b errMax ops)⟩
 
 /-- non-vacuity: a split root whose two children carry the estimate passes the check -/
 example : cutOK (α := Int)
